@@ -283,6 +283,39 @@ def r_flush_guard(ctx):
     return rep
 
 
+def _result_edges(body, call_bb):
+    """for a call returning Result in block call_bb: (ok_edge, err_edge) of the first test of that result — either `?`
+    (Try::branch, then a switch on ControlFlow: Continue = 0) or an explicit match on the Result's discriminant (Ok = 0)"""
+    t = body.blocks[call_bb]["term"]
+    d = t["dest"]["local"]
+    blk = t["target"]
+    seen = 0
+    while blk is not None and seen < 4:
+        seen += 1
+        tt = body.blocks[blk]["term"]
+        if tt["k"] == "call" and callee_name(tt) == "std::ops::Try::branch" and tt["args"] and tt["args"][0].get("k") in ("copy", "move") \
+                and tt["args"][0]["place"]["local"] == d:
+            d = tt["dest"]["local"]
+            blk = tt["target"]
+            continue
+        if tt["k"] == "switch":
+            dis = [st for st in body.blocks[blk]["stmts"] if st["k"] == "assign" and st["rv"]["k"] == "discr" and st["rv"]["place"]["local"] == d]
+            if not dis:
+                return None
+            ok_t = next((tg for v, tg in tt["targets"] if v == 0), None)
+            err_t = next((tg for v, tg in tt["targets"] if v == 1), None)
+            if ok_t is None:
+                ok_t = tt["otherwise"]
+            if err_t is None:
+                err_t = tt["otherwise"]
+            return (blk, ok_t), (blk, err_t)
+        if tt["k"] == "goto":
+            blk = tt["target"]
+            continue
+        return None
+    return None
+
+
 def r_flush_api(ctx):
     rep = RuleReport("R-FLUSH-API", "into_inner() calls flush() before giving up the destination; flush() closes every open master (loop until "
                      "open_tags.last() is None, propagating errors) and then hands everything over")
@@ -298,8 +331,21 @@ def r_flush_api(ctx):
             rep.oblige(fbb in dom.get(bb, set()) and bb != fbb, "FLUSH-API|into_inner|flush-dominates-move", ii.span,
                        "into_inner reads `dest` in bb%d which is not dominated by the flush() call" % bb)
         # the error of flush is propagated: the Ok(dest) exit is reached only through the Continue edge — structural: a Try::branch on flush's result
-        br = [b for b, t, c in ii.calls_to("std::ops::Try::branch")]
-        rep.oblige(bool(br), "FLUSH-API|into_inner|propagates", ii.span, "into_inner ignores the result of flush()")
+        # the error of flush is propagated: the destination is given up only on the Ok edge of the test of flush()'s result (`?` or a match)
+        edges = _result_edges(ii, fbb)
+        good = False
+        if edges is not None:
+            ok_e, err_e = edges
+            reach_err = ii.reachable_from(err_e[1])
+            # where the destination is given up: `move self.dest` in a statement (a `drop` of the field on the error path is not a hand-over)
+            dest_blocks = set()
+            for bb, i, st in ii.statements():
+                if st["k"] == "assign":
+                    for kind, p in _places_in_stmt(st)[1:]:
+                        if any(e["k"] == "field" and e.get("name") == "dest" for e in p["proj"]):
+                            dest_blocks.add(bb)
+            good = bool(dest_blocks) and not (dest_blocks & reach_err) and all(ii.edge_dominates(ok_e, bb) for bb in dest_blocks)
+        rep.oblige(good, "FLUSH-API|into_inner|propagates", ii.span, "into_inner ignores the result of flush() (the destination is handed out on a path where flush() failed)")
     f = find_one(prog, "TagWriter::flush")
     rep.instance("flush")
     pf = f.calls_to(WRITER + "::private_flush")
@@ -332,11 +378,18 @@ def r_flush_api(ctx):
                     good = True
         rep.oblige(good, "FLUSH-API|flush|none-dominates-delivery", f.span, "flush(): private_flush is reachable while open_tags.last() may still be Some")
         # end_tag's error is propagated
-        ebb = et[0][0]
-        nxt = f.blocks[ebb]["term"]["target"]
-        t2 = f.blocks[nxt]["term"] if nxt is not None else None
-        rep.oblige(t2 is not None and t2["k"] == "call" and callee_name(t2) == "std::ops::Try::branch", "FLUSH-API|flush|propagates", f.span,
-                   "flush() ignores the result of end_tag")
+        good = True
+        for ebb, _t, _c in et:
+            edges = _result_edges(f, ebb)
+            if edges is None:
+                good = False
+                continue
+            ok_e, err_e = edges
+            reach_err = f.reachable_from(err_e[1])
+            # after a failed end_tag nothing is delivered and no further master is closed: the error edge only leads to return
+            if pbb in reach_err or any(e2 in reach_err for e2, _, _ in et):
+                good = False
+        rep.oblige(good, "FLUSH-API|flush|propagates", f.span, "flush() ignores the result of end_tag (delivery or further closing is reachable after a failed end_tag)")
     return rep
 
 
